@@ -355,13 +355,21 @@ func (a *area) scenario(r *hx.Rng, emit func(string)) int {
 	case 3: // merge chains a->b->c, into itself, then mutate either side and observe the other (no shared inner maps)
 		order := [][3]string{{"0", "1", "2"}, {"2", "1", "0"}, {"1", "2", "0"}}[r.Intn(3)]
 		x, y, z := order[0], order[1], order[2]
-		for i := 0; i < r.Range(2, 6); i++ {
+		shared := strconv.Itoa(pickTarget(r)) // a target of the source that the destination registers again after the merge
+		e("reg " + x + " " + shared + " " + strconv.Itoa(genPrio(r)) + " " + hexName(genName(r, &known, true)))
+		for i := 0; i < r.Range(1, 5); i++ {
 			e("reg " + x + " " + strconv.Itoa(pickTarget(r)) + " " + strconv.Itoa(genPrio(r)) + " " + hexName(genName(r, &known, true)))
 		}
 		if r.Bool() {
 			e("reg " + y + " " + strconv.Itoa(pickTarget(r)) + " " + strconv.Itoa(genPrio(r)) + " " + hexName(genName(r, &known, true)))
 		}
 		e("merge " + y + " " + x)
+		// the inner maps must have been COPIED: a Register on the destination for a target / name of the source must not
+		// show in the source's maps (white-box dump of the SOURCE), and vice versa
+		e("reg " + y + " " + shared + " " + strconv.Itoa(genPrio(r)) + " " + hexName(genName(r, &known, true)))
+		dump(idx(x, numNotifiers))
+		e("reg " + x + " " + shared + " " + strconv.Itoa(genPrio(r)) + " " + hexName(genName(r, &known, true)))
+		dump(idx(y, numNotifiers))
 		e("merge " + z + " " + y)
 		e("merge " + x + " " + x)
 		if r.Bool() {
